@@ -143,7 +143,10 @@ func GenerateConcurrent(t *rapid.T) *ConcProgram {
 		if id == "idx" && g.chance("localwork", 40) {
 			ws("\t\tloc := %s*%d + 1\n\t\t_ = loc\n", id, g.lit("locc")%100+1)
 		}
-		nsec := 1 + g.pick("nsections", 2)
+		nsec := 1
+		if g.chance("twosections", 25) {
+			nsec = 2
+		}
 		for k := 0; k < nsec; k++ {
 			ws("\t\tmu.Lock()\n")
 			nops := 1 + g.pick("nops", 3)
@@ -179,7 +182,7 @@ func GenerateConcurrent(t *rapid.T) *ConcProgram {
 	} else {
 		for k := 0; k < nthreads; k++ {
 			w("\tgo func() {\n%s\t}()\n", body(fmt.Sprintf("%d", k), 10))
-			if g.chance("parentbetween", 40) {
+			if g.chance("parentbetween", 25) {
 				// the parent also works on the shared state after spawning (captured variables alias)
 				g.feat("parent-writes-after-go")
 				w("\tmu.Lock()\n\t%s\n\tmu.Unlock()\n", g.op(independent, fmt.Sprintf("%d", 50+k), 20))
